@@ -463,3 +463,61 @@ def rule_e3(repo, res):
                                     "line number computed afterwards (EmptyValueAtLine.lineno, module.errors, "
                                     "LexerError.lineno) is too small for text after a removed line end",
                                     where=f"pvl/parser.py:{n.lineno}"))
+
+
+def rule_e4(repo, res):
+    """E4: the parser builds its containers by append() only (plus the pop()+append() repair of the last item).
+    Item assignment / update / setdefault / insert on a container under construction replaces or drops items with
+    the same name (OrderedMultiDict.__setitem__ keeps the first and deletes the others)."""
+    n = 0
+    for cname in repo.subclasses("PVLParser"):
+        for m, fn in repo.classes[cname].methods.items():
+            if m == "__init__":
+                continue
+            # names that hold containers: results of self.modcls()/aggregation_cls(), the `module` parameter of hooks,
+            # tuple-unpacked results of parse_module_post_hook
+            holders = set()
+            for a in fn.args.args:
+                if a.arg in ("module", "agg"):
+                    holders.add(a.arg)
+            for x in ast.walk(fn):
+                if isinstance(x, ast.Assign):
+                    src = norm(x.value)
+                    if src in ("self.modcls()", "self.grpcls()", "self.objcls()") or src.startswith("self.aggregation_cls("):
+                        for t in x.targets:
+                            if isinstance(t, ast.Name):
+                                holders.add(t.id)
+                    if "parse_module_post_hook" in src:
+                        for t in x.targets:
+                            if isinstance(t, ast.Tuple) and t.elts and isinstance(t.elts[0], ast.Name):
+                                holders.add(t.elts[0].id)
+            if not holders:
+                continue
+            n += 1
+            bad = []
+            for x in ast.walk(fn):
+                if isinstance(x, (ast.Assign, ast.AugAssign)):
+                    tg = x.targets if isinstance(x, ast.Assign) else [x.target]
+                    for t in tg:
+                        if isinstance(t, ast.Subscript) and isinstance(t.value, ast.Name) and t.value.id in holders:
+                            bad.append(x)
+                if isinstance(x, ast.Delete):
+                    for t in x.targets:
+                        if isinstance(t, ast.Subscript) and isinstance(t.value, ast.Name) and t.value.id in holders:
+                            bad.append(x)
+                if isinstance(x, ast.Call) and isinstance(x.func, ast.Attribute) and isinstance(x.func.value, ast.Name) \
+                        and x.func.value.id in holders and x.func.attr in ("update", "setdefault", "insert", "insert_before",
+                                                                          "insert_after", "popall", "discard", "clear",
+                                                                          "extend", "__setitem__", "popitem"):
+                    bad.append(x)
+                if isinstance(x, ast.Call) and isinstance(x.func, ast.Attribute) and isinstance(x.func.value, ast.Name) \
+                        and x.func.value.id in holders and x.func.attr == "pop" and (x.args or x.keywords):
+                    bad.append(x)
+            res.oblige("E4", f"{cname}.{m}: containers under construction ({sorted(holders)}) change only by append() / pop()", ok=not bad)
+            for x in bad:
+                res.add(Finding("E4", f"{cname}.{m}", norm(x, 70),
+                                f"{cname}.{m} changes a container under construction with `{norm(x, 70)}`: on the ordered "
+                                "multi-dict, item assignment/update keeps the first item of that name and deletes the others, "
+                                "so statements of the text go missing or change place when a name is repeated",
+                                where=f"pvl/parser.py:{x.lineno}"))
+    res.floor("parser methods that build containers", n, 3)
